@@ -59,6 +59,26 @@ MISSED = {
     "C17-F": "no rejected attach attempts concurrent with appends",
     "C18-E": "the stopwatch was never closed while guards were being stopped on another thread",
     "C18-F": "values were always closed under the time source they were created under",
+    # round 4
+    "C01-G": "the last queue handle was never dropped while the writer was held inside the stream (C01 never took the forget path)",
+    "C04-G": "the streams of the barrier histories never reported errors",
+    "C05-G": "the join / attach handle was never dropped by unwinding",
+    "C05-H": "no flush future was kept un-polled across the forget path",
+    "C06-G": "a force-flush guard was only created before, never after, concurrently created flush guards",
+    "C06-H": "the sink never panicked: no entry finished on a thread after a caught panic inside a final drop",
+    "C07-G": "no field identifier or tag name started with a run of capitals",
+    "C08-H": "names always reached the writer as borrowed strings",
+    "C09-G": "only local metrics recorders, one queue each",
+    "C09-H": "entries were 8 bytes",
+    "C10-G": "the last two handles of a worker sink were never dropped at the same moment",
+    "C10-H": "a mutex-shared aggregate was never closed while a (slow) merge held its lock",
+    "C13-H": "the deprecated, still public open_slot() + delay_flush() path was not exercised",
+    "C15-G": "deny-lists only held the ASCII name `dup`",
+    "C15-H": "sample-group iterators had exact size hints",
+    "C16-H": "only the sequence of next() calls was observed for immediate-flush sinks, not the flush after each",
+    "C18-G": "owned guards were never dropped by unwinding",
+    "C19-H": "a refused value's effect on a long-lived Mean was not inspected",
+    "C20-G": "histograms were only fed through record(), with values below 2^32",
 }
 
 
